@@ -31,7 +31,9 @@ TEXT = dict(
           "(mpmath closed forms, adaptive quadrature of the class's own cdf) at the property's tolerances on every run, every integrated "
           "call under a memory/time guard.",
     note="F4 (premature convergence of the trapezoid rule when 0 lies inside [a-6o,b+6o]) and F5 (a=b, o=0 never returned) were found by this "
-         "check and are repaired in /repo (867c66b, fd4085d; known_findings.json `fixed:`); no open finding. Not proved: the accuracy of the integrated curve (false for the documented algorithm in general), the "
+         "check and are repaired in /repo (867c66b, fd4085d; known_findings.json `fixed:`). Recorded finding on the unchanged tree: the stop rule of the "
+         "integrated noisy curve can still be fooled by cancellation at the first permitted round (keyed, explicit predicate; what stop_rule_not_a_bound "
+         "proves possible). Not proved: the accuracy of the integrated curve (false for the documented algorithm in general), the "
          "noisy quantile clause for c = 1, c = 7, c = 5 at scales >= 0.2, c = 3 at scales >= 0.02 (series regime; C07's bound exceeds the "
          "tolerance there) and under IEEE rounding.",
 )
